@@ -531,7 +531,7 @@ def explore(ctx, case):
 def blocks(tier, seed):
     q = tier == 'quick'
     allops = ops_plugins() + ops_contracts() + ops_aliases() + OBSERVERS
-    d = 4 if q else 5
+    d = 4 if q else 6
     cases = [
         ('plugins subsystem', ops_plugins() + OBSERVERS, None, None),
         ('contracts+interfaces subsystem', ops_contracts() + OBSERVERS, None, None),
@@ -553,7 +553,7 @@ def meta(tier, seed):
              'found by introspection); invariants on every state and edge against a set model' % len(DEFAULTS),
         states_meaning='distinct canonical snapshots of the package\'s global state (plugin list order and hidden defaults included); '
                        'transitions = API calls executed',
-        bounds={'product_depth': 4 if q else 5, 'plugins': 3, 'scopes': 2, 'contracts': 2, 'interfaces': 4, 'aliases': 2,
+        bounds={'product_depth': 4 if q else 6, 'plugins': 3, 'scopes': 2, 'contracts': 2, 'interfaces': 4, 'aliases': 2,
                 'subsystems': 'fixpoint'},
         assumptions=['the "random longer histories" clause is replaced by per-subsystem fixpoints, which cover histories of any length '
                      'inside a subsystem; cross-subsystem interference is explored to the product depth bound',
